@@ -449,3 +449,10 @@ def callback_operand_kind_independence(ctx):
 @rule("R02.8", "C02", "operand-kind independence: what an expression callback builds does not depend on the class of its operands", min_instances=20)
 def r02_8(ctx):
     callback_operand_kind_independence(ctx)
+
+
+@rule("R02.9", "C02", "`c ? a : b` with a constant c still has the common type of a and b (the compiler selects the arm itself)", min_instances=14)
+def r02_9(ctx):
+    from .c09 import folded_conditional_type
+
+    folded_conditional_type(ctx)
